@@ -252,6 +252,67 @@ func c20history(tag string, G, opsPer, nkeys int, seed int64) (ops []porcupine.O
 	return ops, overlaps
 }
 
+// c20burst: G goroutines are released together on one fresh key per round; each interns the key and
+// immediately converts the hash back. The per-key sub-histories (2·G operations) go to porcupine;
+// a lookup that misses after the same goroutine's intern returned is also counted directly.
+func c20burst(tag string, G, rounds int) (ops []porcupine.Operation, lostOwn int, firstLost string) {
+	var clock atomic.Int64
+	var gen atomic.Int64
+	var arrived atomic.Int64
+	var mu sync.Mutex
+	var wg sync.WaitGroup
+	for g := 0; g < G; g++ {
+		wg.Add(1)
+		go func(g int) {
+			defer wg.Done()
+			var mine []porcupine.Operation
+			lost := 0
+			first := ""
+			for r := 0; r < rounds; r++ {
+				// spin barrier: everybody starts round r at (nearly) the same instant
+				if arrived.Add(1) == int64(G) {
+					arrived.Store(0)
+					gen.Add(1)
+				} else {
+					for gen.Load() <= int64(r) {
+						runtime.Gosched()
+					}
+				}
+				key := fmt.Sprintf("%s_b%d", tag, r)
+				t0 := clock.Add(1)
+				h := object.GetSymHash(key)
+				t1 := clock.Add(1)
+				mine = append(mine, porcupine.Operation{ClientId: g, Input: c20in{intern: true, key: key}, Call: t0, Output: c20out{hash: h}, Return: t1})
+				t2 := clock.Add(1)
+				o, ok := object.SymHash2Str(h)
+				t3 := clock.Add(1)
+				out := c20out{found: ok}
+				if ok && o != nil {
+					if ps, isStr := o.(*object.PanStr); isStr {
+						out.str = ps.Value
+					}
+				}
+				if !ok || out.str != key {
+					lost++
+					if first == "" {
+						first = key
+					}
+				}
+				mine = append(mine, porcupine.Operation{ClientId: g, Input: c20in{key: key}, Call: t2, Output: out, Return: t3})
+			}
+			mu.Lock()
+			ops = append(ops, mine...)
+			lostOwn += lost
+			if firstLost == "" {
+				firstLost = first
+			}
+			mu.Unlock()
+		}(g)
+	}
+	wg.Wait()
+	return
+}
+
 // ---- HTTP workload
 func freePort() int {
 	l, err := net.Listen("tcp", "127.0.0.1:0")
@@ -603,7 +664,24 @@ func runC20(w *fw.W) {
 						vs.add("C20|linearizability|intern-table-history-not-linearizable", strings.Join(lines, "\n"), lines)
 					}
 				}
-				res := fw.Result{Verdict: fw.Held, Evals: totalOps, Counters: map[string]int{"histories_checked": nh, "histories_linearizable": okN,
+				// burst histories: one fresh key per round, all goroutines released together
+				object.SetVerifPoint(nil)
+				rounds := 6000 * scale
+				bops, lostOwn, firstLost := c20burst(tagOf()+"_burst", 8, rounds)
+				totalOps += len(bops)
+				bres, _ := porcupine.CheckOperationsVerbose(c20model, bops, 120*time.Second)
+				switch {
+				case lostOwn > 0:
+					vs.add("C20|linearizability|interned-symbol-not-found-by-its-own-interner", fmt.Sprintf("%d time(s) GetSymHash returned a hash that SymHash2Str (called next by the same goroutine) does not know; first key %q (8 goroutines released together on a fresh key, %d rounds)", lostOwn, firstLost, rounds), firstLost)
+				case bres == porcupine.Illegal:
+					vs.add("C20|linearizability|intern-table-history-not-linearizable", fmt.Sprintf("burst history over %d fresh keys is not linearizable", rounds), nil)
+				case bres == porcupine.Unknown:
+					unknown++
+				default:
+					okN++
+				}
+				nh++
+				res := fw.Result{Verdict: fw.Held, Evals: totalOps, Counters: map[string]int{"histories_checked": nh, "histories_linearizable": okN, "burst_rounds": rounds,
 					"histories_unknown": unknown, "intern_lookup_overlaps": overl, "history_operations": totalOps},
 					DKeys:  []string{fmt.Sprintf("histories|slot=%d|r=%d", slot, r)},
 					Sample: fmt.Sprintf("%d histories (3–8 goroutines, 2–4 fresh keys, %d ops) → %d linearizable, %d unknown; %d intern∥lookup overlaps", nh, totalOps, okN, unknown, overl)}
